@@ -1002,6 +1002,22 @@ impl PartialEq for RelayConnectionState {
 
 impl Eq for RelayConnectionState {}
 
+/// Verification hooks (compiled only with `--cfg n0_computer_iroh_verif`): a pause point between the check and the
+/// write of [`HomeRelayWatch::set_status`].
+#[cfg(n0_computer_iroh_verif)]
+pub(crate) mod verif_hooks {
+    use std::sync::atomic::{AtomicU64, Ordering};
+
+    pub(crate) static PAUSE_IN_SET_STATUS_MS: AtomicU64 = AtomicU64::new(0);
+
+    pub(crate) fn between_check_and_write() {
+        let ms = PAUSE_IN_SET_STATUS_MS.load(Ordering::SeqCst);
+        if ms > 0 {
+            std::thread::sleep(std::time::Duration::from_millis(ms));
+        }
+    }
+}
+
 /// Shared watchable for the home relay URL and connection status.
 ///
 /// Owned by [`RelayActor`] and cloned into each [`ActiveRelayActor`].
@@ -1044,6 +1060,8 @@ impl HomeRelayWatch {
     /// the time the old actor tries to write, the URL no longer matches.
     fn set_status(&self, url: &RelayUrl, state: RelayConnectionState) {
         if self.inner.get().as_ref().map(RelayStatus::url) == Some(url) {
+            #[cfg(n0_computer_iroh_verif)]
+            verif_hooks::between_check_and_write();
             let _ = self.inner.set(Some(RelayStatus::new(url.clone(), state)));
         }
     }
